@@ -25,7 +25,8 @@ def run_generator(plugin: str, out_dir: str, models: Optional[Sequence[str]] = N
     spelling: "default"  - run from REPO with absolute paths;
               "cwd"      - the same command from an unrelated working directory;
               "relative" - from the parent of the output directory, every path given relative to it;
-              "minpath"  - as default, with a search path that holds no developer tools."""
+              "minpath"  - as default, with a search path that holds no developer tools;
+              "elsewhen" - as default, on another day (clock shifted), as another user on another machine."""
     test_dir = os.path.join(out_dir, "_tests")
     cwd = REPO
     tmp_cwd = None
@@ -43,11 +44,53 @@ def run_generator(plugin: str, out_dir: str, models: Optional[Sequence[str]] = N
     env["PYTHONDONTWRITEBYTECODE"] = "1"
     if spelling == "minpath":   # no developer tools (formatters, cargo, dotnet) on the search path
         env["PATH"] = "/usr/bin:/bin"
+    site_dir = None
+    if spelling == "elsewhen":
+        # another day, another user, another machine: the clock of the sub-process is shifted by 400 days through a
+        # sitecustomize module, and the identity variables of the environment are different
+        site_dir = scratch("lspverif-site-")
+        with open(os.path.join(site_dir, "sitecustomize.py"), "w") as f:
+            f.write(_CLOCK_SHIFT)
+        env["PYTHONPATH"] = site_dir + os.pathsep + REPO
+        env.update(USER="someone-else", LOGNAME="someone-else", USERNAME="someone-else", HOME=site_dir, HOSTNAME="build-agent-7", TZ="Pacific/Kiritimati")
     try:
         return subprocess.run(cmd, cwd=cwd, env=env, capture_output=True, text=True, timeout=timeout)
     finally:
         if tmp_cwd:
             shutil.rmtree(tmp_cwd, ignore_errors=True)
+        if site_dir:
+            shutil.rmtree(site_dir, ignore_errors=True)
+
+
+_CLOCK_SHIFT = """
+import datetime as _dt, time as _t
+_D = 400 * 86400
+_real_time, _real_localtime, _real_gmtime, _real_strftime = _t.time, _t.localtime, _t.gmtime, _t.strftime
+class _Fn:   # a callable that does not turn into a bound method when stored on a class (logging.Formatter.converter)
+    def __init__(self, f): self.f = f
+    def __call__(self, *a): return self.f(*a)
+_t.time = _Fn(lambda: _real_time() + _D)
+_t.time_ns = _Fn(lambda: int((_real_time() + _D) * 1e9))
+_t.localtime = _Fn(lambda s=None: _real_localtime(_real_time() + _D if s is None else s))
+_t.gmtime = _Fn(lambda s=None: _real_gmtime(_real_time() + _D if s is None else s))
+_t.strftime = _Fn(lambda fmt, tup=None: _real_strftime(fmt, _t.localtime() if tup is None else tup))
+_RealDT, _RealDate = _dt.datetime, _dt.date
+class datetime(_RealDT):
+    @classmethod
+    def now(cls, tz=None):
+        return _RealDT.now(tz) + _dt.timedelta(seconds=_D)
+    @classmethod
+    def utcnow(cls):
+        return _RealDT.utcnow() + _dt.timedelta(seconds=_D)
+    @classmethod
+    def today(cls):
+        return _RealDT.today() + _dt.timedelta(seconds=_D)
+class date(_RealDate):
+    @classmethod
+    def today(cls):
+        return _RealDate.today() + _dt.timedelta(seconds=_D)
+_dt.datetime, _dt.date = datetime, date
+"""
 
 
 def rustfmt(path: str) -> None:
